@@ -52,12 +52,10 @@ def exact_history(step_terms, kinds, rf, order, ic, prm, frc, q0, mpm):
         m, b, k = (mpf(x) for x in prm[i])
         f = [mpf(x) for x in frc[i]]
         tD, tV = step_terms[(kd, order)][:2]
-        if ic == "zero":
-            d, v = mpf(0), mpf(0)
-        elif ic == "d0v0":
-            d, v = mpf(q0[0][i]), mpf(q0[1][i])
-        else:  # static: elastic equations start at f0/k, rigid-body at rest at zero
-            d, v = (f[0] / k if k != 0 else mpf(0)), mpf(0)
+        d0given, v0given, static = ic
+        # documented rule (specs/OdeModel.tla IcRule): d0 wins over static_ic; static: elastic equations start at f0/k, rigid-body at 0
+        d = mpf(q0[0][i]) if d0given else ((f[0] / k if k != 0 else mpf(0)) if static else mpf(0))
+        v = mpf(q0[1][i]) if v0given else mpf(0)
         ds, vs = [d], [v]
         for j in range(1, len(f)):
             env = dict(m=m, b=b, k=k, h=mpf(H), d0=d, v0=v, f0=f[j - 1], f1=f[j])
@@ -81,7 +79,7 @@ def one_problem(job):
     import mpmath as mpm
     from pyyeti import ode
     mpm.mp.dps = 50
-    (pi, problem, reps, step_terms, seed) = job
+    (pi, problem, reps, step_terms, seed, icrule) = job
     step_terms = {(k, o): v for (k, o, *v) in step_terms}
     kinds, rf, order, ic = problem
     rng = np.random.default_rng(seed * 100003 + pi)
@@ -89,13 +87,14 @@ def one_problem(job):
     prm = [params_for(kd, rng, pi + i) for i, kd in enumerate(kinds)]
     frc = rng.standard_normal((n, NT)) * rng.uniform(0.5, 2.0, (n, 1))
     q0 = (rng.standard_normal(n) * 1e-3, rng.standard_normal(n) * 1e-1)
+    ic = tuple(bool(x) for x in icrule)            # <<d0 given, v0 given, static_ic>> as exported by the spec
     D, Vv, Aa = exact_history(step_terms, kinds, rf, order, ic, prm, frc.tolist(), q0, mpm)
     Dm = np.array([[float(x) for x in r] for r in D])
     Vm = np.array([[float(x) for x in r] for r in Vv])
     Am = np.array([[float(x) for x in r] for r in Aa])
     krf = 4.0e7
     frf = rng.standard_normal(NT)
-    loose = 2e-3 if any(kd == "rbl" for kd in kinds) else (5e-8 if any(kd in ("undn", "overn") for kd in kinds) else 1e-9)
+    loose = 2e-3 if any(kd == "rbl" for kd in kinds) else (3e-7 if any(kd in ("undn", "overn") for kd in kinds) else 1e-9)
     results = []
     for r in reps:
         res = run_rep(np, ode, rng, kinds, rf, order, ic, prm, frc, q0, Dm, Vm, Am, krf, frf, r, loose)
@@ -121,7 +120,7 @@ def run_rep(np, ode, rng, kinds, rf, order, ic, prm, frc, q0, Dm, Vm, Am, krf, f
     order_eq = idx[:]
     rfpos = None
     if rf:
-        rfpos = ntot - 1 if r["layout"] == "contiguous" else max(1, n // 2)
+        rfpos = ntot - 1 if r["layout"] == "contiguous" else (0 if r["layout"] == "rffirst" else max(1, n // 2))
         order_eq.insert(rfpos, "rf")
     M = np.zeros((ntot, ntot)); B = np.zeros((ntot, ntot)); K = np.zeros((ntot, ntot)); F = np.zeros((ntot, f.shape[1]))
     modal_of = {}
@@ -164,20 +163,19 @@ def run_rep(np, ode, rng, kinds, rf, order, ic, prm, frc, q0, Dm, Vm, Am, krf, f
         rb = list(range(len(rbpos)))           # after pre_eig the rigid-body modes are the first (zero) eigenvalues
     rfarg = [rfpos] if rf else None
     d0 = v0 = None
-    static = False
-    if ic == "d0v0":
+    d0given, v0given, static = ic
+    if d0given or v0given:
         q0d = np.zeros(ntot); q0v = np.zeros(ntot)
         for pos, e in modal_of.items():
             q0d[pos], q0v[pos] = q0[0][e], q0[1][e]
-        d0, v0 = Ti @ q0d, Ti @ q0v
-    elif ic == "static":
-        static = True
+        d0 = Ti @ q0d if d0given else None
+        v0 = Ti @ q0v if v0given else None
     try:
         if r["solver"] == "SolveExp1":
             Mi = np.linalg.inv(M)
             A = np.block([[np.zeros((ntot, ntot)), np.eye(ntot)], [-Mi @ K, -Mi @ B]])
             ts = ode.SolveExp1(A, H, order=order)
-            y0 = None if d0 is None else np.concatenate((d0, v0))
+            y0 = None if (d0 is None and v0 is None) else np.concatenate((np.zeros(ntot) if d0 is None else d0, np.zeros(ntot) if v0 is None else v0))
             sol = ts.tsolve(np.vstack((np.zeros_like(F), Mi @ F)), y0)
             d, v, a = sol.d[:ntot], sol.d[ntot:], sol.v[ntot:]
         else:
@@ -227,9 +225,9 @@ def body(run: Run, replay):
                        "damped below the documented cut-off)", "w*h in [0.05, 2.5] (the well-conditioned range the statement names)",
                        "statement is tested on enumerated cases, not proved"]
     jobs = []
-    for pi, (problem, reps) in enumerate(probs):
+    for pi, (problem, reps, icrule) in enumerate(probs):
         reps = list(reps)
-        jobs.append((pi, problem, reps, step_terms, run.seed))
+        jobs.append((pi, problem, reps, step_terms, run.seed, icrule))
     nsample = 0
     with mp_.get_context("fork").Pool(16) as pool:
         for pi, problem, prm, results in pool.imap_unordered(one_problem, jobs, chunksize=4):
